@@ -1,1 +1,24 @@
-fn main(){}
+mod c07;
+mod c08;
+mod c14;
+use vcore::Report;
+
+fn main() {
+    let id = std::env::args().nth(1).unwrap_or_default();
+    let id = if id == "replay" {
+        let f = std::env::args().nth(2).unwrap_or_default();
+        let v: serde_json::Value = serde_json::from_str(&std::fs::read_to_string(&f).unwrap_or_default()).unwrap_or_default();
+        v["property"].as_str().unwrap_or("").to_string()
+    } else {
+        id
+    };
+    match id.as_str() {
+        "C07" => c07::main(Report::from_args("model_checking")),
+        "C08" => c08::main(Report::from_args("exploration")),
+        "C14" => c14::main(Report::from_args("exploration")),
+        _ => {
+            eprintln!("MACHINERY: roots serves C07, C08, C14");
+            std::process::exit(2)
+        }
+    }
+}
